@@ -82,13 +82,19 @@ CHECKS = {
             "individual carrying an index of ANOTHER history can become its own ancestor: RecursionError); replayed (protocol op `hist`) on multi-generation varAnd/varOr "
             "histories with one History object: offspring, history_index, genealogy_tree/_history content and identity, getGenealogy answers. Two more clause-carrying "
             "streams: fitness classes with INTEGER weights and exact integer objectives beyond 2**53, and call histories on ONE class whose gene structure changes "
-            "(atomic -> nested lists -> atomic) with one toolbox reused.",
-            TB + "that the operator MODELS compute what deap.tools / deap.gp compute is the correspondence of C09/C10/C11 and of the composed stream here (OpContract itself "
+            "(atomic -> nested lists -> atomic) with one toolbox reused. TRANSLATOR TIE: on every run deap/algorithms.py varAnd and varOr are regenerated from the "
+            "current source as Lean definitions (harness/py2lean_c02.py over Core/GenPreludeC02.lean) and kernel-checked equal to the hand-written model composed with "
+            "its draw decoders (GenEq/C02.lean.tmpl: Gen.varAnd_eq_canon, Gen.varAnd_eq_model - on every tape that starts with the len/2+len random() results the call "
+            "consumes; Gen.varOr_eq_canon, Gen.varOr_eq_model - on EVERY tape, run to exhaustion), so the index loops of the source are PROVED to be the structural "
+            "recursions the theorems are about (Lemmas/C02Gen.lean forPairs_mateBody, forEach_mutBody, repeatM_orBody); the packaged loops of C03 are outside the "
+            "translated sub-language (listed as refused).",
+            TB + "the rendering rules of harness/py2lean_c02.py (docstring) and the prelude Core/GenPreludeC02.lean; that the operator MODELS compute what deap.tools / deap.gp compute is the correspondence of C09/C10/C11 and of the composed stream here (OpContract itself "
             "holds for every lifted function, so it does not depend on it); user-registered operators outside the library are covered relative to OpContract (checked "
             "on every recorded call); a = b (the same object passed twice to mate) is outside the lifting's faithful domain and never arises (two different clones are "
             "passed); clone=deepcopy (C16); Lean Float < and + equal CPython's; GP nodes are immutable symbols; 'shares no mutable state' is oid freshness in the model "
             "and the aliasing walk on the real objects; varOr needs >= 2 individuals when cxpb > 0.",
-            "Lean 4 proof over a hand-written heap model composed with the operator models + trace-replay and end-to-end tape-replay correspondence + oracle"),
+            "Lean 4 proof over a hand-written heap model composed with the operator models + trace-replay and end-to-end tape-replay correspondence + oracle "
+            "+ translator tie (definitions regenerated from source, kernel-checked equal to the model)"),
     "C09": ("full",
             "Lean theorems C09.{onepoint,twopoint,uniform,messy}_multiset, *_locus, *_lengths, uniform(R)_exact, es_pairs(+_multiset,_locus,_lengths), "
             "pmx_perm, upmx_perm, ox_perm (aliased in-place model), shuffle_perm/shuffle_total/shuffle_raises, inversion_perm(+_exact), flip_exact/complement/length, "
